@@ -466,6 +466,10 @@ func (r *reporter) optsError(prefix string, opt *query.ProcessorOptions, err err
 			continue
 		}
 		if _, serr := shipCondition(e); serr != nil {
+			if sc := specialClass(e, serr); sc != "" {
+				r.violation("codec:"+sc, fmt.Sprintf("%s: the store cannot decode the options (%v): expression %q", prefix, err, clip(e.String())), oc)
+				return
+			}
 			if why := explainShipped(e, shipCondition); why != "" {
 				for _, w := range strings.Split(why, "+") {
 					r.violation("codec:"+w, fmt.Sprintf("%s: the store cannot decode the options (%v): expression %q; it round-trips once the text %s", prefix, err, clip(e.String()), whyText(w)), oc)
@@ -644,6 +648,11 @@ func (r *reporter) checkPlan(i int) {
 		explained := false
 		for _, f := range fields {
 			if _, serr := shipField(f.Expr); serr != nil {
+				if sc := specialClass(f.Expr, serr); sc != "" {
+					r.violation("codec:"+sc, fmt.Sprintf("QuerySchema.QueryFields: the store cannot parse the shipped fields (%v): field %q", err, clip(f.Expr.String())), oc)
+					explained = true
+					break
+				}
 				if why := explainShipped(f.Expr, shipField); why != "" {
 					for _, w := range strings.Split(why, "+") {
 						r.violation("codec:"+w, fmt.Sprintf("QuerySchema.QueryFields: the store cannot parse the shipped fields (%v): field %q; it round-trips once the text %s", err, clip(f.Expr.String()), whyText(w)), oc)
@@ -694,6 +703,10 @@ func (r *reporter) checkPlan(i int) {
 		c.Count("roundtrips:expropts-codec", 1)
 		if eerr != nil {
 			_, ferr := shipField(f.Expr)
+			if sc := specialClass(f.Expr, ferr); sc != "" {
+				r.violation("codec:"+sc, fmt.Sprintf("ExprOptions: %q cannot be decoded (%v)", clip(f.Expr.String()), eerr), oc)
+				continue
+			}
 			if why := explainShipped(f.Expr, shipField); why != "" && ferr != nil {
 				for _, w := range strings.Split(why, "+") {
 					r.violation("codec:"+w, fmt.Sprintf("ExprOptions: %q cannot be decoded (%v); it round-trips once the text %s", clip(f.Expr.String()), eerr, whyText(w)), oc)
